@@ -416,3 +416,134 @@ pub mod conn_rules {
             .is_ok()
     }
 }
+
+pub mod socks {
+    use crate::authentication;
+    use crate::socks5_client::{
+        self, Address, Authentication, ConnectResult, ExtendedAuthenticationValue, ReplyCode,
+        Request,
+    };
+    use std::borrow::Cow;
+    use std::net::{IpAddr, SocketAddr};
+    use tokio::io::{AsyncRead, AsyncWrite};
+
+    pub enum Auth {
+        UsernamePassword(String, String),
+        /// (type code 1..5, value): 1 domain, 2 client address (4/16 bytes), 3 user agent,
+        /// 4 basic proxy auth, 5 sni auth
+        Extended(Vec<(u8, Vec<u8>)>),
+    }
+
+    pub enum Dest {
+        Ip(IpAddr),
+        Domain(String),
+    }
+
+    #[derive(Debug, PartialEq, Eq)]
+    pub enum Outcome {
+        Tcp,
+        /// reply code as ReplyCode discriminant order (1 = general failure ... 8)
+        Failure(u8),
+        Io,
+        Protocol,
+        Authentication,
+    }
+
+    fn reply_num(c: &ReplyCode) -> u8 {
+        match c {
+            ReplyCode::Succeeded => 0,
+            ReplyCode::GeneralFailure => 1,
+            ReplyCode::NotAllowed => 2,
+            ReplyCode::NetworkUnreachable => 3,
+            ReplyCode::HostUnreachable => 4,
+            ReplyCode::ConnectionRefused => 5,
+            ReplyCode::TtlExpired => 6,
+            ReplyCode::CommandNotSupported => 7,
+            ReplyCode::AddressTypeNotSupported => 8,
+        }
+    }
+
+    /// The real `socks5_client::connect` (CONNECT request) over any byte stream
+    pub async fn connect<IO>(io: IO, auth: Option<Auth>, dest: Dest, port: u16) -> Outcome
+    where
+        IO: AsyncRead + AsyncWrite + Send + Unpin,
+    {
+        let auth = auth.map(|a| match a {
+            Auth::UsernamePassword(u, p) => {
+                Authentication::UsernamePassword(Cow::Owned(u), Cow::Owned(p))
+            }
+            Auth::Extended(values) => Authentication::Extended(
+                values
+                    .into_iter()
+                    .map(|(t, v)| match t {
+                        1 => ExtendedAuthenticationValue::Domain(Cow::Owned(
+                            String::from_utf8_lossy(&v).to_string(),
+                        )),
+                        2 => ExtendedAuthenticationValue::ClientAddress(if v.len() == 4 {
+                            IpAddr::from(<[u8; 4]>::try_from(&v[..]).unwrap())
+                        } else {
+                            IpAddr::from(<[u8; 16]>::try_from(&v[..]).unwrap())
+                        }),
+                        3 => ExtendedAuthenticationValue::UserAgent(Cow::Owned(
+                            String::from_utf8_lossy(&v).to_string(),
+                        )),
+                        4 => ExtendedAuthenticationValue::BasicProxyAuth(Cow::Owned(
+                            String::from_utf8_lossy(&v).to_string(),
+                        )),
+                        _ => ExtendedAuthenticationValue::SniAuth,
+                    })
+                    .collect(),
+            ),
+        });
+        let address = match dest {
+            Dest::Ip(x) => Address::IpAddress(x),
+            Dest::Domain(x) => Address::DomainName(Cow::Owned(x)),
+        };
+        match socks5_client::connect(io, auth, Request::Connect(address, port)).await {
+            Ok(ConnectResult::TcpConnection(_)) => Outcome::Tcp,
+            Ok(ConnectResult::UdpAssociation(_)) => unreachable!(),
+            Ok(ConnectResult::Failure(c)) => Outcome::Failure(reply_num(&c)),
+            Err(socks5_client::Error::Io(_)) => Outcome::Io,
+            Err(socks5_client::Error::Protocol(_)) => Outcome::Protocol,
+            Err(socks5_client::Error::Authentication(_)) => Outcome::Authentication,
+        }
+    }
+
+    /// `socks5_forwarder::make_auth`: `proxy_basic` = the base64 token of Proxy-Authorization,
+    /// otherwise the SNI credentials label
+    pub fn make_auth(proxy_basic: bool, value: &str) -> Result<(String, String), String> {
+        let source = if proxy_basic {
+            authentication::Source::ProxyBasic(Cow::Borrowed(value))
+        } else {
+            authentication::Source::Sni(Cow::Borrowed(value))
+        };
+        crate::socks5_forwarder::verif_hooks::make_auth_pair(source)
+    }
+
+    /// RFC 1928 section 7 wrapping as `UdpAssociation::send_to` writes it to `relay`
+    pub async fn udp_send_to(
+        socket: tokio::net::UdpSocket,
+        data: &[u8],
+        destination: SocketAddr,
+    ) -> Result<(), String> {
+        socks5_client::verif_hooks::udp_association(socket)
+            .send_to(data, destination)
+            .await
+            .map_err(|e| format!("{:?}", e))
+    }
+
+    /// `UdpAssociation::recv_from` on the next datagram of `socket`
+    pub async fn udp_recv_from(
+        socket: tokio::net::UdpSocket,
+        cap: usize,
+    ) -> Result<(usize, SocketAddr, Vec<u8>), String> {
+        let mut data = vec![0; cap];
+        let a = socks5_client::verif_hooks::udp_association(socket);
+        let (n, source) = a
+            .recv_from(&mut data)
+            .await
+            .map_err(|e| format!("{:?}", e))?;
+        data.truncate(n.min(cap));
+        Ok((n, source, data))
+    }
+}
